@@ -200,12 +200,13 @@ SumOf(s) == IF \E i \in DOMAIN s : s[i].t = "dec" THEN NormDec(SumDec(s)) ELSE I
 \* ---- array filters keyed by a property name ----------------------------------
 \* (filter_reference.md: where / reject / find / find_index / has / map / uniq /
 \* compact / sum / sort with a string key).  Items must be hashes; comparing with
-\* Python == across bool/int, and 0 as a "truthy" property, are UNSPECIFIED.
+\* Python == across bool/int is UNSPECIFIED.
 AllHashes(s) == \A i \in DOMAIN s : s[i].t = "hash"
 Prop(h, k) == IF HHas(h.h, k) THEN HGet(h.h, k) ELSE Nil
+\* (without a value to compare with, the filters test the property for truth - 0 is as true as any number)
 Murky(seq, k, val) ==
   \/ \E i \in DOMAIN seq : Prop(seq[i], k).t \notin {"nil", "bool", "int", "str"}
-  \/ \E i \in DOMAIN seq : Prop(seq[i], k) = IntV(0) \/ Prop(seq[i], k) = IntV(1)
+  \/ (val.t \notin {"nil", "undef"} /\ \E i \in DOMAIN seq : Prop(seq[i], k) = IntV(0) \/ Prop(seq[i], k) = IntV(1))
   \/ val.t \notin {"nil", "undef", "int", "str", "bool"}
 KeyMatch(h, k, val) ==
   IF val.t \in {"nil", "undef"} THEN Truthy(Prop(h, k)) ELSE LEq(Prop(h, k), val)
